@@ -134,8 +134,12 @@ class TimeTriggerDecorator(TriggerDecorator):
                 await asyncio.sleep(timeout)
                 _LOGGER.debug("%s finish sleeping for %s seconds", self, timeout)
                 while True:
+                    #
+                    # time_next_adj is only meaningful relative to the "now" it was computed from; the wall
+                    # clock has to be compared with the local trigger time itself (as the legacy loop does)
+                    #
                     now = dt_now()
-                    timeout = (time_next_adj - now).total_seconds()
+                    timeout = (time_next - now).total_seconds()
                     if timeout <= 1e-6:
                         break
                     _LOGGER.debug("%s additional sleep for %s seconds", self, timeout)
